@@ -597,8 +597,8 @@ def run(chk, cases=None):
     chk.extra["metamorphic_failures"] = len(meta_fail)
 
     found_concrete = False
-    for i in bad[:4]:
-        case = shrink(cases[i], lambda c: _fails(chk, c), _cands, budget=60)
+    for i in bad[:2]:
+        case = shrink(cases[i], lambda c: _fails(chk, c), _cands, budget=45)
         out = run_impl(case)
         rec, spec_ok = judge(chk, case, out)
         if not spec_ok:
@@ -618,7 +618,7 @@ def run(chk, cases=None):
             rec, _ = judge(chk, cases[hit[0]], outs[hit[0]])
             chk.report(rec)
             found_concrete = True
-    for i, what, vc, vo in meta_fail[:3]:
+    for i, what, vc, vo in meta_fail[:2]:
         found_concrete = True
         chk.report({"case": cases[i], "impl": outs[i], "variant_case": _strip(vc), "variant_impl": vo,
                     "what": "metamorphic relation of the property fails on the implementation: " + what,
